@@ -252,6 +252,11 @@ func (publisher *Publisher) Places() map[string]*place {
 			key := alnumOrDashRegexp.
 				ReplaceAllString(strings.ToLower(prettyName), "-")
 
+			// A place may be called "Families".
+			if isReservedPageKey(key) {
+				key = "place-" + key
+			}
+
 			if _, ok := publisher.placesMap[key]; !ok {
 				country := placeTag.Country()
 				if country == "" {
